@@ -95,9 +95,9 @@ def run_one(sh, case, driver='generated'):
     def as_layout(a):
         # same values, another memory layout: Fortran order or a transposed view of a C array
         if layout == 'F':
-            return np.asfortranarray(a)
+            return np.asfortranarray(np.array(a, copy=True))
         if layout == 'T':
-            return np.ascontiguousarray(a.T).T
+            return np.ascontiguousarray(np.array(a, copy=True).T).T
         return np.array(a, copy=True)
     E = sigs.shape[1]
     flat_sig = sigs.flatten()
